@@ -1,6 +1,7 @@
 (* Correspondence cases for C06. *)
 From Coq Require Import List NArith ZArith Bool.
 From PyD Require Export Base.Str Model.Hier Model.Mrs Model.Iso Corr.Common.
+From PyD Require Import Proofs.IsoExact.
 Import ListNotations.
 
 Inductive case :=
@@ -13,9 +14,15 @@ Definition iso_b (ms : list mrs) (properties : bool) (a b : nat) : bool :=
   | _, _ => false
   end.
 
+Definition iso_hyp (m : mrs) (p : bool) : bool :=
+  match make_isograph m p with Some g => wf_graphb g && clean_graphb g | None => true end.
+
 Definition check_case (c : case) : bool :=
   match c with
-  | CIso m1 m2 p v => option_eqb Bool.eqb (is_isomorphic m1 m2 p) (Some v)
+  | CIso m1 m2 p v =>
+      option_eqb Bool.eqb (is_isomorphic m1 m2 p) (Some v) &&
+      (* the hypotheses of the soundness theorem C06_vf2_sound hold of both isographs *)
+      iso_hyp m1 p && iso_hyp m2 p
   | CBags ms test gold p u s g =>
       let '(u', s', g') := compare_bags nat (iso_b ms p) test gold in
       Nat.eqb u' u && Nat.eqb s' s && Nat.eqb g' g
